@@ -8,6 +8,8 @@
 (*                                                                         *)
 (*  X.cycle     the cycle counter seen by step k is k (StopRule!CycleIsStep*)
 (*              bound to the code)                                         *)
+(*  X.rates     when step k starts, exactly k - 1 rates and differences of *)
+(*              this run have been recorded (StopRule: Len(rates) = steps) *)
 (*  X.leader    the best agent an optimization_step sees is a best member  *)
 (*              of the population it starts from                           *)
 (*  X.slotwise  greedy-per-agent optimizers: slot i never gets worse       *)
